@@ -51,7 +51,12 @@ Inductive case :=
      Compress off (the size probe) *)
 | CaseConcrete (h : mhdr) (compress : bool) (qs : list (list N * N * N)) (an ns ex : list crec)
                (handled lib_ok : bool) (bytes : list N) (ulen : N)
-with crec := R (nm : list N) (k : rkind) (ptr ty cls ttl rdlen : N) (steps : body).
+  (* a pool history: concrete messages packed one after the other on the same pooled state
+     (handled, declined, or abandoned part-way), then the message under test: handled?, library
+     packs?, TryPack's bytes, the library's bytes *)
+| CaseHistory (hist : list cmsg) (m : cmsg) (handled lib_ok : bool) (got want : list N)
+with crec := R (nm : list N) (k : rkind) (ptr ty cls ttl rdlen : N) (steps : body)
+with cmsg := CM (h : mhdr) (compress : bool) (qs : list (list N * N * N)) (an ns ex : list crec).
 
 Fixpoint bools_eqb (a b : list bool) : bool :=
   match a, b with
@@ -105,6 +110,13 @@ Definition msg_of (h : mhdr) (compress : bool) (qs : list (list N * N * N)) (an 
 Definition dirty_state : pstate name body dict :=
   mk_pstate name body dict (repeat 255 (N.to_nat pack_buffer_size)) None None (hdr_zero name []) None.
 
+Definition msg_of_cm (c : cmsg) : msg name body :=
+  match c with CM h compress qs an ns ex => msg_of h compress qs an ns ex end.
+(* the state a history leaves: every TryPack hands its state back (Model.try_pack_gen), also
+   when packInto gave up after writing part of the message *)
+Definition state_after_history (hist : list cmsg) : pstate name body dict :=
+  fold_left (fun s c => tp_state name body dict (try_pack_c s (msg_of_cm c))) hist dirty_state.
+
 Definition check_case (c : case) : bool :=
   match c with
   | CaseMsg pkgs h compress nq an ns ex ulen o =>
@@ -154,6 +166,16 @@ Definition check_case (c : case) : bool :=
       end &&
       match fst (lib_pack_c m) with
       | LOk b => lib_ok && bytes_eqb b bytes
+      | _ => negb lib_ok
+      end
+  | CaseHistory hist cm handled lib_ok got want =>
+      let m := msg_of_cm cm in
+      match tp_bytes name body dict (try_pack_c (state_after_history hist) m) with
+      | Some b => handled && bytes_eqb b got
+      | None => negb handled
+      end &&
+      match fst (lib_pack_c m) with
+      | LOk b => lib_ok && bytes_eqb b want
       | _ => negb lib_ok
       end
   end.
@@ -217,4 +239,7 @@ Definition spec_case (c : case) : bool :=
   | CaseConcrete h compress qs an ns ex handled lib_ok bytes ulen =>
       (* whatever the pooled packer agrees to encode the library encodes, and it fits the pool *)
       if handled then lib_ok && (ulen <=? 4096) && (len bytes <=? ulen) else true
+  | CaseHistory hist cm handled lib_ok got want =>
+      (* whatever was packed, declined or abandoned before: the bytes are the library's *)
+      if handled then lib_ok && bytes_eqb got want else true
   end.
